@@ -351,6 +351,13 @@ func (w *Worker) callSSA(caller *frame, fn *ssa.Function, args []Value, env []Va
 			w.ensureInit(fn.Pkg)
 			return nil
 		}
+		if st := w.harnessStub(fn); st != nil {
+			// environment stub supplied by the harness package (VHStub_<pkg>_<Func>, same signature): used in the
+			// symbolic run only - natively the real function runs; recorded in the evidence as a stub
+			w.noteFn(name, "harness-stub:"+st.Name())
+			w.assumptions["environment stub "+st.Name()+" stands for "+name+" (documented contract only)"] = true
+			return w.callSSA(caller, st, args, nil)
+		}
 		if w.skipModel == fn {
 			w.skipModel = nil
 		} else if m, ok := models[name]; ok {
@@ -831,3 +838,21 @@ var callDenyPkgs = map[string]bool{
 }
 
 func callDenied(path string) bool { return callDenyPkgs[path] }
+
+// harnessStub returns the harness package's stand-in for a standard-library function, if it declares one:
+// a package-level function VHStub_<last path element>_<Name> in the package of the harness being run, e.g.
+// VHStub_filepath_Walk for path/filepath.Walk.  Only functions outside the module under verification can be
+// replaced (the code under check itself is never stubbed).
+func (w *Worker) harnessStub(fn *ssa.Function) *ssa.Function {
+	if fn.Pkg == nil || fn.Signature.Recv() != nil || w.E.entry == nil || w.E.entry.Pkg == nil {
+		return nil
+	}
+	path := fn.Pkg.Pkg.Path()
+	if strings.HasPrefix(path, ModPath) {
+		return nil
+	}
+	if i := strings.LastIndex(path, "/"); i >= 0 {
+		path = path[i+1:]
+	}
+	return w.E.entry.Pkg.Func("VHStub_" + path + "_" + fn.Name())
+}
